@@ -9,7 +9,7 @@ CONSTANTS
   KindsR2 = {"lookup", "current"}
   MaxAppends = 1
   NUpdaters = 1
-  VaaNames = {"A", "B", "C", "D", "E", "F", "G"}
+  VaaNames = {"A", "B", "C", "D", "E", "F", "G", "H", "I", "J"}
 INVARIANTS
   TypeOK
   RightSet
